@@ -224,7 +224,36 @@ def ORACLE(v, scn, out):
             bad.append('sent %r, held %r' % (sent, bal))
         if what == 'keeper' and (keeper['usei'] != bal.get('usei', 0) * rate // E or keeper['uusd'] != bal.get('uusd', 0) * rate // E):
             bad.append('keeper got %r of %r at rate %d' % (keeper, bal, rate))
-        if what not in ('zero_coin', 'total', 'keeper'):
+        rebond, order_ok, seen_index, seen_reward = 0, True, False, False
+        for sm in msgs:
+            m = sm['msg']
+            if 'bank' in m:
+                to = m['bank']['send']['to_address']
+                if to == 'reward_contract':
+                    seen_reward = True
+                    if seen_index:
+                        order_ok = False
+                    if what == 'reward_denom' and any(c['denom'] != 'uusd' for c in m['bank']['send']['amount']):
+                        bad.append('reward contract is sent %r' % m['bank']['send']['amount'])
+                elif to != 'keeper_addr' and what == 'recipient':
+                    bad.append('send to %s' % to)
+            elif 'wasm' in m:
+                x = m['wasm']['execute']
+                if 'update_global_index' in x['msg']:
+                    seen_index = True
+                    if what == 'index_target' and x['contract_addr'] != 'reward_contract':
+                        bad.append('index update sent to %s' % x['contract_addr'])
+                elif 'bond_rewards' in x['msg']:
+                    rebond += sum(int(c['amount']) for c in x['funds'])
+                    if what == 'rebond_target' and x['contract_addr'] != 'hub_contract':
+                        bad.append('re-bond sent to %s' % x['contract_addr'])
+                elif what == 'call':
+                    bad.append('unexpected call %r' % x)
+        if what == 'rebond' and rebond != bal.get('usei', 0) - bal.get('usei', 0) * rate // E:
+            bad.append('re-bonded %d of %d held (keeper %d)' % (rebond, bal.get('usei', 0), bal.get('usei', 0) * rate // E))
+        if what == 'order' and not (order_ok and seen_index):
+            bad.append('index update missing or before the reward delivery')
+        if what not in ('zero_coin', 'total', 'keeper', 'rebond', 'order', 'reward_denom', 'recipient', 'index_target', 'rebond_target', 'call'):
             return None
         return bad
     if key.startswith('swap:'):
